@@ -28,6 +28,8 @@ def impl_oracle(c):
         return kind, "%s: %s" % (c["op"], o["crash"][:160])
     if c["op"] == "file":
         return J.file_oracle(c)
+    if c["op"] == "reuse":
+        return J.usage_oracle(c)
     if c["op"] == "gort":
         r = o.get("res")
         if r in ("marshal-mismatch", "unmarshalerr", "json-rejects") or not o.get("ok"):
@@ -116,6 +118,11 @@ def run(ck):
              "category (sampled in the quick tier) through strconv.Quote and the printer against the model with the "
              "unicode.IsPrint table; blocks of 1024 code points (all 1088 blocks in the thorough tier, a seeded tenth "
              "plus everything below U+3000 otherwise) through strconv.Quote per code point and the real round trip as "
-             "value and as key. Trivial = the value "
+             "value and as key. Usage patterns (round 3): every integer -130..130, powers of ten and their "
+             "neighbours in every Go integer and float type, short json.Number spellings; strings and keys longer "
+             "than 4096 bytes, wide and deep containers; two to five values through Marshal one after the other "
+             "(the bytes of the first result intact after the next call, the same text twice) and from 8 goroutines "
+             "(Marshal, Sprint); Fprint into writers that fail at Write call k (for good, or once) must return an "
+             "error; WriteFile into a missing directory. Trivial = the value "
              "nil; distinct = distinct (operation, json.Marshal of the value).",
         assumptions=["values are those json.Marshal can encode", "unicode.IsPrint(0x0A) = false"])
